@@ -4,7 +4,7 @@ import random
 LEVEL = "exploration"
 BATCH = 12
 BATCH_TIMEOUT = 3000
-RULE = ("case = (reader | writer, native | AXI port, fifo_depth incl. 1 and 2, buffered, producer / consumer stall profile incl. "
+RULE = ("[CORE CASES: a share of the cases (names core*) runs the same front-end and oracle on a port of the real LiteDRAMCrossbar + LiteDRAMController with the reference DRAM on DFI, refresh running, DFI protocol events of the reference model added to the witnesses] case = (reader | writer, native | AXI port, fifo_depth incl. 1 and 2, buffered, producer / consumer stall profile incl. "
         "'stall hundreds of cycles then drain', memory latency / back-pressure profile, seed); reader: the output stream must "
         "equal, word for word and in order, the store contents at the accepted address stream with `last` on the matching "
         "word, and the pulsed core stub must never have to pulse rdata.valid into ready=0; writer: the (address, data) pairs "
